@@ -40,7 +40,8 @@ MODULES = {
     "glide": {"trace_spec": "Trace_Glide", "trace_cfg": "Trace_Glide.cfg", "graphs": {}},
     "params": {"trace_spec": "Trace_Params", "trace_cfg": "Trace_Params.cfg", "graphs": {}},
     "voice": {"trace_spec": "Trace_Voice", "trace_cfg": "Trace_Voice.cfg", "graphs": {}},
-    "lfo": {"trace_spec": "Trace_Lfo", "trace_cfg": "Trace_Lfo.cfg", "graphs": {}},
+    "lfo": {"trace_spec": "Trace_Lfo", "trace_cfg": "Trace_Lfo.cfg",
+            "graphs": {"fs128": {"module": "MC_Lfo", "cfg": "Graph_Lfo.cfg", "target": "lfo"}}},
 }
 
 _VOICE_MC = ("voice", "MC_Voice", "MC_Voice.cfg", QT)
@@ -92,7 +93,7 @@ PROPS.update({
         "traces": [("lfo", "shapes", QT), ("lfo", "freq", QT), ("lfo", "extreme", QT), _LFO_SWEEP],
         "rule": "distinct table cells (of 1024) whose phases were read out; thorough: all 2^24 phases",
     },
-    "C11": {"module": "lfo", "mc": _LFO_MC, "traces": [("lfo", "freq", QT), ("lfo", "shapes", QT), ("lfo", "extreme", QT)]},
+    "C11": {"module": "lfo", "mc": _LFO_MC, "graphs": [("lfo", "fs128", QT)], "traces": [("lfo", "freq", QT), ("lfo", "shapes", QT), ("lfo", "extreme", QT)]},
     "C12": {"module": "lfo", "mc": _LFO_MC, "traces": [("lfo", "shapes", QT), _LFO_SWEEP]},
 })
 
